@@ -168,6 +168,7 @@ def counting(base):
             self.reads = 0
             self.reads_after_eof = 0
             self.eof_budget = eof_budget
+            self.consumed = 0   # characters (bytes for a byte stream) handed to the reader so far
             return self
 
         def read_line(self, length=None):
@@ -180,6 +181,7 @@ def counting(base):
                     self.log.add("asked_forever")
                     raise AskedForever()
             else:
+                self.consumed += len(out)
                 self.log.add("read", out if isinstance(out, str) else out.decode("utf-8", "replace"))
             return out
 
